@@ -87,6 +87,7 @@ class Monitors(Listener):
         self.tier_moves = 0
         self.live_h2c = set()             # pids of hot->cold moves in flight
         self.h2c_inflight = {}            # pid -> [observation being moved hot->cold, amount that has arrived]
+        self.orphan_reported = set()
         self.c2h_inflight = {}            # pid -> [observation being moved cold->hot, amount that has arrived]
         self.live_c2h = set()
         self.moves_overlapped = None      # see note_moves
@@ -559,6 +560,21 @@ class Monitors(Listener):
             self.viol("C07", "cold-free-space-out-of-range", "%s of %s (up to %d hot->cold moves in flight at once)" % (
                 fr(cold.current_capacity), fr(cold.total_capacity), self.max_live_h2c),
                 sig="cold-free-space-out-of-range" + (":concurrent-h2c" if self.max_live_h2c >= 2 and cold.current_capacity < 0 else ""))
+        # C07: data in the buffer belongs to an observation that is resident in it: once the telescope has marked an
+        # observation FINISHED it is in one of the tiers' lists (stored / scheduled / in transfer / finished)
+        if self.want("C07"):
+            for o in tel.observations:
+                if str(o.status.value) == "FINISHED" and o.total_data_size > 0:
+                    places = (hot.observations["stored"], hot.observations["scheduled"], hot.observations["finished"],
+                              cold.observations["stored"])
+                    moving = [x[0] for x in self.h2c_inflight.values()] + [x[0] for x in self.c2h_inflight.values()]
+                    if not any(o in pl for pl in places) and hot.observations["transfer"] is not o \
+                            and cold.observations["transfer"] is not o and not any(o is x for x in moving) \
+                            and not self.live_h2c and not self.live_c2h and o.name not in self.orphan_reported:
+                        self.orphan_reported.add(o.name)
+                        self.viol("C07", "data-owned-by-no-resident-observation",
+                                  "%s has left the telescope with %s units taken in, and is in neither tier's lists" % (
+                                      o.name, fr(o.total_data_size)))
         if self.tier_moves == 0:
             resident = 0
             for o in tel.observations:
@@ -583,6 +599,7 @@ class Monitors(Listener):
                     n = self.total_machines
                     if sk.get("split"):
                         lo, hi = sk["split"][name]
+                        lo = max(lo, sk.get("min", 1))      # the configured minimum holds beside a per-observation split
                     else:
                         lo, hi = sk.get("min", 1), n // sk.get("partitions", 1)
                     if len(l) > hi or len(l) < lo or len(l) < sk.get("min", 1):
@@ -599,9 +616,10 @@ class Monitors(Listener):
         if self.want("C14") and k == "monitor":
             for o in tel.observations:
                 pl = getattr(o, "plan", None)
+                # (checked at every step until it fails once: the graph stays the workflow while the plan is executed -
+                # finished tasks are pruned from plan.tasks, never from the graph)
                 if pl is None or pl.graph is None or o.name in self.plan_checked:
                     continue
-                self.plan_checked.add(o.name)
                 wf = [x for x in self.h.spec["observations"] if x["name"] == o.name][0]["workflow"]
                 suffix = lambda t: str(t.id).rsplit("_", 1)[-1]
                 got_nodes = sorted(suffix(t) for t in pl.graph.nodes)
@@ -612,6 +630,7 @@ class Monitors(Listener):
                 bad_comp = [t.id for t in pl.graph.nodes if suffix(t) in comps and t.flops != comps[suffix(t)]]
                 if got_nodes != want_nodes or got_edges != want_edges or bad_comp or \
                         any(task_obs(t.id) != o.name for t in pl.graph.nodes):
+                    self.plan_checked.add(o.name)
                     self.viol("C14", "plan-not-the-observations-workflow",
                               "%s: plan nodes %s edges %s, its workflow has nodes %s edges %s; wrong demands %s" % (
                                   o.name, got_nodes, got_edges[:6], want_nodes, want_edges[:6], bad_comp[:3]))
